@@ -9,7 +9,7 @@
 (*                 history of length ExportLen is exported with the model's *)
 (*                 outcome and the formula values of every step.            *)
 EXTENDS Equiv
-CONSTANTS MaxLen, ExportLen, NUin, NUout, Profile, Diag
+CONSTANTS MaxLen, ExportLen, NUin, NUout, Profile, Diag, Part
 VARIABLES init, obj, hist
 vars == <<init, obj, hist>>
 
@@ -20,22 +20,37 @@ ASSUME PrintT(ToJson([tag |-> "TABLES", gens |-> GenName, nums |-> GenNum, units
 \*  hist   : up to MaxLen steps inside one equivalence, narrow alphabet
 \*  sim    : for -simulate, wide alphabet, any chain
 Entries == IF Profile = "hist" THEN {"to", "to_value", "convert_to_units", "convert_to_equivalent"} ELSE AllEntries
-DtShs == CASE Profile = "single" -> {<<"f8", "a">>, <<"f8", "q">>, <<"i8", "a">>, <<"i8", "q">>, <<"f8", "v1">>, <<"f8", "v2">>}
-           [] Profile = "hist" -> {<<"f8", "a">>, <<"i8", "q">>, <<"f8", "v2">>}
-           [] OTHER -> {<<"f8", "a">>, <<"f8", "q">>, <<"i8", "a">>, <<"i8", "q">>, <<"f8", "v1">>, <<"f8", "v2">>}
-\* hist: float objects hold value pair 1 (velocity: also a beta pair), integer objects the large pair 3
-PairIdx(d) == IF Profile = "hist" THEN (IF d = "velocity" THEN {1, 3, 5} ELSE IF d = "dimensionless" THEN {1} ELSE {1, 3}) ELSE DOMAIN ValPairs(d)
+\* dtype x shape: every dtype as quantity and array; views only of float/complex buffers (retyping an integer view is C18's subject)
+WideDtShs == ((AllDts \ {"f8"}) \X {"a"}) \cup ({"i8", "u1", "i2", "f4", "c16"} \X {"q"}) \cup ({"f8"} \X Shapes) \cup ({"f4", "c16"} \X {"v2"})
+DtShs == IF Profile = "hist" THEN {<<"f8", "a">>, <<"i8", "q">>, <<"f8", "v2">>, <<"i2", "a">>, <<"f4", "a">>, <<"u1", "q">>}
+         ELSE WideDtShs
+\* hist: float64 objects hold value pair 1 (velocity: also a beta pair), int64 objects the large pair 3, narrow dtypes pair 5
+PairIdx(d) == IF Profile = "hist" THEN (IF d = "velocity" THEN {1, 3, 5, 6} ELSE IF d = "dimensionless" THEN {1} ELSE {1, 3, 5}) ELSE DOMAIN ValPairs(d)
+\* which value pairs a dtype may hold: float64 everything; 8-byte integers the integral pairs; complex128 pairs 1 and 5;
+\* narrower dtypes the moderate pair 5 (exact in every dtype), float32/complex64 also a beta pair, floats a gamma pair
+PairOk(d, pi, dt) ==
+  CASE dt = "f8" -> TRUE
+    [] dt \in {"i8", "u8"} -> TRUE
+    [] d = "dimensionless" -> dt \in {"f2", "f4", "c8", "c16"} /\ pi = 1
+    [] dt = "c16" -> pi \in {1, 5}
+    [] dt \in {"f4", "c8"} -> pi = 5 \/ (d = "velocity" /\ pi = 6)
+    [] OTHER -> pi = 5
 PlainInit(i) == Units[i.u].n = 1 /\ i.pi = 1 /\ i.dt = "f8" /\ i.sh = "a"
-GateOn(i) == Profile # "single" \/ PlainInit(i)
-SameOn(i) == Profile # "single" \/ (i.pi = 1 /\ i.dt = "f8")
+NarrowProbe(i) == Units[i.u].n = 1 /\ i.pi = 5 /\ i.sh = "a" /\ i.dt \in {"i1", "i4", "f2", "c8"}
+\* Part splits the single-step instance into two TLC runs (0 = everything, 1 = float64/int64 objects, 2 = the other dtypes)
+PartOk(dt) == Part = 0 \/ (Part = 1 /\ dt \in {"f8", "i8"}) \/ (Part = 2 /\ dt \notin {"f8", "i8"})
+GateOn(i) == Profile # "single" \/ PlainInit(i) \/ NarrowProbe(i)
+SameOn(i) == Profile # "single" \/ (i.pi = 1 /\ i.dt = "f8") \/ NarrowProbe(i)
 
 InitOk(d, u, pi, dt, sh) ==
   /\ Units[u].n <= NUin
-  /\ dt = "i8" => (Units[u].c = "si" /\ \A j \in 1..NElem(sh) : IntOk(ValPairs(d)[pi][j]))
+  /\ dt # "f8" => Units[u].c = "si"
+  /\ PairOk(d, pi, dt)
+  /\ dt \in IntDts => \A j \in 1..NElem(sh) : IntOk(ValPairs(d)[pi][j])
   /\ d \in OutsideDims => (Units[u].n = 1 /\ pi = 1 /\ dt = "f8" /\ sh = "a")
-  /\ Profile = "hist" => ((dt = "i8") <=> (pi = 3))
+  /\ Profile = "hist" => ((dt = "i8") <=> (pi = 3)) /\ (dt = "f8" => pi # 5)
 Init == \E d \in AllDims : \E u \in UnitsOfDim(d), pi \in PairIdx(d), ds \in DtShs :
-          /\ InitOk(d, u, pi, ds[1], ds[2])
+          /\ InitOk(d, u, pi, ds[1], ds[2]) /\ PartOk(ds[1])
           /\ init = [d |-> d, u |-> u, pi |-> pi, dt |-> ds[1], sh |-> ds[2], v |-> MkObj(d, u, ValPairs(d)[pi], ds[1], ds[2]).v]
           /\ obj = MkObj(d, u, ValPairs(d)[pi], ds[1], ds[2])
           /\ hist = <<>>
@@ -44,11 +59,15 @@ Targets(o, eq) ==
   {tu \in UI :
      LET tb == Units[tu].d IN
      \/ /\ Covered(eq, o.d, tb) /\ Units[tu].n <= NUout
+        /\ o.dt # "f8" => Units[o.u].c = "si"      \* narrow/integer/complex objects are only converted from coherent SI units
      \/ /\ Uncovered(eq, o.d, tb) /\ Units[tu].n = 1 /\ GateOn(init)
         /\ Profile = "single" \/ (tb \in {"time", "energy"} /\ eq \in {"thermal", "lorentz"})
-     \/ /\ tb = o.d /\ tu # o.u /\ Units[tu].n <= 2 /\ SameOn(init)
+     \/ /\ tb = o.d /\ tu # o.u /\ Units[tu].n <= 2 /\ SameOn(init) /\ Bytes(o.dt) >= 4
         /\ eq = "thermal"}
-Kws(o, eq, tu) == IF Covered(eq, o.d, Units[tu].d) THEN (IF Profile = "single" THEN KwOk(eq) ELSE KwOk(eq) \cap {1, 4}) ELSE {1}
+\* keyword settings: all for float64/int64 single steps; the dtype dimension is crossed with the default setting only
+Kws(o, eq, tu) == IF ~Covered(eq, o.d, Units[tu].d) THEN {1}
+                  ELSE IF Profile = "single" THEN (IF init.dt \in {"f8", "i8"} THEN KwOk(eq) ELSE {1})
+                  ELSE KwOk(eq) \cap {1, 4}
 Follows(en, last) == IF en \in InPlaceEntries THEN {TRUE} ELSE IF en = "to_value" \/ last THEN {FALSE} ELSE {TRUE, FALSE}
 
 Step(en, eq, k, tu, fo) ==
@@ -79,7 +98,10 @@ Spec == Init /\ [][Next]_vars
 
 ExportHist == Len(hist) = ExportLen => PrintT(ToJson([tag |-> "HIST", init |-> init, h |-> hist]))
 \* model-level: along every history the transcription agrees with the defining formula
-ModelFormula == \A i \in DOMAIN hist : hist[i].cand # <<>> => (hist[i].exp.k = "ok" /\ hist[i].exp.v = hist[i].cand)
+\* (the only refusal of a covered request in the transcription: in place on 1-byte integers)
+ModelFormula == \A i \in DOMAIN hist : hist[i].cand # <<>> =>
+                   \/ hist[i].exp.k = "ok" /\ hist[i].exp.v = hist[i].cand
+                   \/ hist[i].exp.k = "raise" /\ hist[i].exp.exc = "TypeError" /\ hist[i].en \in InPlaceEntries
 
 \* ------------------------------------------------------------ the laws instance
 LInit == \E eq \in EqSet, a \in AllDims, b \in AllDims : \E c \in (IF Cardinality(EqDims(eq)) > 2 THEN EqDims(eq) \cup {a} ELSE {a}), k \in KwOk(eq) :
